@@ -19,6 +19,8 @@ EXPLANATION = 'R19.8 the radiogenic laws evaluated at the shipped isotope tables
 EXPLANATION += ' R19.7 the array twin: every interpreted call repeated with array arguments (mutable cells) returns the scalar values element for element and leaves the arguments intact.'
 
 
+TECHNIQUE += '; floor tests decided only between quantities of one kind (parameter kinds of both operands)'
+
 def run(chk):
     repo = Repo(chk.repo)
     it = Interp(repo)
